@@ -208,6 +208,7 @@ type runner struct {
 	inject *Inject
 	l1     []string
 	after  string // actor to freeze after its current operation
+	reopen bool   // every operation goes through a Cache value opened just before it
 }
 
 func (r *runner) log(e Event) {
@@ -347,10 +348,21 @@ func (r *runner) put(c *cache.Cache, o Op) string {
 }
 
 var putSeq int64
+var reopenSeq int64
 
 func (r *runner) actor(c *cache.Cache, name string, ops []Op) func() {
 	return func() {
 		for _, o := range ops {
+			if r.reopen {
+				// a user that arrives now: it opens the directory (while others are in the middle of their
+				// operations) and works through that value.  Opening creates the 256 subdirectories if need be
+				// and touches no entry.
+				h, err := cache.Open(r.dir)
+				if err != nil {
+					vutil.Fatalf("open cache: %v", err)
+				}
+				c = h
+			}
 			r.log(Event{Ev: "call", A: name, Op: o.Op, ID: o.ID, C: o.C, Rd: o.Rd})
 			var res string
 			if o.Op == "put" {
@@ -490,6 +502,7 @@ func runOne(family, mode string, cfg Config, strat vsched.Strategy, inj *Inject)
 			handles[a] = h
 		}
 	}
+	r.reopen = own && atomic.AddInt64(&reopenSeq, 1)%2 == 1
 	vos.SetInterceptor(r)
 	out := vsched.Run(strat, 20000, func() {
 		s := vsched.Cur()
